@@ -19,6 +19,10 @@ pub const ALPN: &[u8] = b"/iroh-sync/1";
 
 mod codec;
 
+/// Verification hooks: the private session codec (only with `--cfg iroh_docs_verif`).
+#[cfg(iroh_docs_verif)]
+pub use self::codec::verif as verif_codec;
+
 /// Connect to a peer and sync a replica
 pub async fn connect_and_sync(
     endpoint: &Endpoint,
